@@ -577,6 +577,234 @@ pub fn c09(tier: Tier, seed: u64) -> Verdict {
     )
 }
 
+// ------------------------------------------------------------------------------------------ C05: allocations outside the buffer management
+
+/// Entry points with prepared inputs: `prepare(i)` returns the call as a boxed closure; everything the harness needs
+/// is allocated before the closure runs. Returns None past the end of the list.
+#[allow(clippy::type_complexity)]
+pub fn entry_point(i: usize) -> Option<(&'static str, Box<dyn FnOnce() -> Option<LeanString>>)> {
+    let long = "a text that is clearly longer than sixteen bytes, about sixty bytes";
+    let invalid: Vec<u8> = [b"valid prefix of the text ".as_slice(), &[0xff, 0xe2, 0x82], b" and a tail after the bad bytes"].concat();
+    let units: Vec<u16> = long.encode_utf16().chain([0xd800, 0x41]).collect();
+    let heap = || LeanString::from(long);
+    let shared = || {
+        let a = LeanString::from(long);
+        let b = a.clone();
+        (a, b)
+    };
+    let stat: &'static str = "a static text that is longer than sixteen bytes!";
+    Some(match i {
+        0 => ("from_utf8_lossy(invalid)", Box::new(move || Some(LeanString::from_utf8_lossy(&invalid)))),
+        1 => ("from_utf8_lossy(valid)", Box::new(move || Some(LeanString::from_utf8_lossy(long.as_bytes())))),
+        2 => ("from_utf16_lossy", Box::new(move || Some(LeanString::from_utf16_lossy(&units)))),
+        3 => ("from_utf16", Box::new(move || LeanString::from_utf16(&units[..units.len() - 2]).ok())),
+        4 => ("from_utf8", Box::new(move || LeanString::from_utf8(long.as_bytes()).ok())),
+        5 => ("from(&str)", Box::new(move || Some(LeanString::from(long)))),
+        6 => {
+            let s = long.to_string();
+            ("from(String)", Box::new(move || Some(LeanString::from(s))))
+        }
+        7 => {
+            let c: Cow<str> = Cow::Borrowed(long);
+            ("from(Cow::Borrowed)", Box::new(move || Some(LeanString::from(c))))
+        }
+        8 => {
+            let b = long.to_string().into_boxed_str();
+            ("from(Box<str>)", Box::new(move || Some(LeanString::from(b))))
+        }
+        9 => ("parse", Box::new(move || LeanString::from_str(long).ok())),
+        10 => {
+            let v: Vec<char> = long.chars().collect();
+            ("collect::<LeanString>(chars)", Box::new(move || Some(v.into_iter().collect())))
+        }
+        11 => {
+            let v: Vec<&'static str> = vec!["piece one, ", "piece two, ", "piece three is the longest of them"];
+            ("collect::<LeanString>(&str)", Box::new(move || Some(v.into_iter().collect())))
+        }
+        12 => {
+            let v: Vec<LeanString> = vec![LeanString::from("inline"), heap()];
+            ("collect::<LeanString>(LeanString)", Box::new(move || Some(v.into_iter().collect())))
+        }
+        13 => {
+            let v: Vec<char> = long.chars().collect();
+            let mut t = LeanString::from("start");
+            ("extend(chars)", Box::new(move || {
+                t.extend(v);
+                Some(t)
+            }))
+        }
+        14 => {
+            let v: Vec<String> = vec!["owned piece".to_string(), long.to_string()];
+            let (_a, mut t) = shared();
+            ("extend(String) on shared", Box::new(move || {
+                t.extend(v);
+                Some(t)
+            }))
+        }
+        15 => ("i64::MIN.to_lean_string()", Box::new(move || Some(i64::MIN.to_lean_string()))),
+        16 => ("u128::MAX.to_lean_string()", Box::new(move || Some(u128::MAX.to_lean_string()))),
+        17 => ("f64.to_lean_string()", Box::new(move || Some(1.2345678901234567e-300f64.to_lean_string()))),
+        18 => ("&str.to_lean_string() (generic arm)", Box::new(move || Some(long.to_lean_string()))),
+        19 => {
+            let s = long.to_string();
+            ("String.to_lean_string()", Box::new(move || Some(s.to_lean_string())))
+        }
+        20 => ("format_args.to_lean_string()", Box::new(move || Some(format_args!("{long}/{}/{:>8}", 42, 1.5).to_lean_string()))),
+        21 => {
+            let mut t = LeanString::from_static_str(stat);
+            ("push_str on static", Box::new(move || {
+                t.push_str(" and more");
+                Some(t)
+            }))
+        }
+        22 => {
+            let (_a, mut t) = shared();
+            ("insert_str on shared", Box::new(move || {
+                t.insert_str(3, "inserted");
+                Some(t)
+            }))
+        }
+        23 => {
+            let (_a, mut t) = shared();
+            ("retain on shared", Box::new(move || {
+                t.retain(|c| c != 'e');
+                Some(t)
+            }))
+        }
+        24 => {
+            let (_a, mut t) = shared();
+            ("remove on shared", Box::new(move || {
+                t.remove(0);
+                Some(t)
+            }))
+        }
+        25 => {
+            let mut t = heap();
+            ("reserve on heap", Box::new(move || {
+                t.reserve(500);
+                Some(t)
+            }))
+        }
+        26 => {
+            let (_a, mut t) = shared();
+            ("shrink_to_fit on shared", Box::new(move || {
+                t.pop();
+                t.shrink_to_fit();
+                Some(t)
+            }))
+        }
+        27 => {
+            let t = heap();
+            ("LeanString + &str", Box::new(move || Some(t + " appended with the plus operator")))
+        }
+        28 => {
+            use std::fmt::Write as _;
+            let mut t = LeanString::from("w:");
+            ("write!", Box::new(move || {
+                let _ = write!(t, "{long}{}", 123456789);
+                Some(t)
+            }))
+        }
+        29 => {
+            let t = heap();
+            ("clone + clone_from", Box::new(move || {
+                let mut c = t.clone();
+                c.clone_from(&t);
+                Some(c)
+            }))
+        }
+        30 => ("with_capacity", Box::new(move || Some(LeanString::with_capacity(300)))),
+        31 => {
+            let c = '𝄞';
+            ("from(char) + to_lean_string(char)", Box::new(move || {
+                let mut t = LeanString::from(c);
+                t.push_str(c.to_lean_string().as_str());
+                Some(t)
+            }))
+        }
+        _ => return None,
+    })
+}
+
+/// One entry point with the k-th allocation it makes *outside* its buffer management refused (k = None: count only).
+/// A refused std allocation that cannot be reported aborts the process: the supervisor's crash triage reports it.
+pub fn global_refusal_case(i: usize, k: Option<u64>) -> Result<u64, (String, String)> {
+    shadow::with(|h| h.begin_case());
+    // inputs (including LeanStrings on the shadow heap) are prepared inside the case
+    let Some((name, call)) = entry_point(i) else { return Ok(0) };
+    let g0 = shadow::global_allocs();
+    if let Some(k) = k {
+        shadow::arm_global_refusal(k);
+    }
+    let r = std::panic::catch_unwind(std::panic::AssertUnwindSafe(call));
+    let fired = shadow::disarm_global_refusal();
+    let n = shadow::global_allocs() - g0;
+    let mut verdict = Ok(n);
+    match r {
+        Ok(v) => drop(v),
+        Err(p) => {
+            let msg = p.downcast_ref::<String>().cloned().or_else(|| p.downcast_ref::<&str>().map(|s| s.to_string())).unwrap_or_default();
+            if k.is_none() || !fired {
+                verdict = Err(("C01.unexpected_panic".to_string(), format!("{name} panicked: {msg}")));
+            } else if msg != crate::outcome::RESERVE_MSG {
+                verdict = Err((
+                    "C05.refusal_message".to_string(),
+                    format!("{name}: a refused allocation made it panic with {msg:?} instead of the ReserveError message"),
+                ));
+            }
+        }
+    }
+    let (live, viol) = heap_state();
+    shadow::with(|h| {
+        h.end_case();
+    });
+    verdict?;
+    if let Some(v) = viol {
+        return Err(("C05.heap_after_refusal".into(), format!("{name}: {v}")));
+    }
+    if live != 0 {
+        return Err(("C05.leak_after_refusal".into(), format!("{name}: {live} block(s) left after a refused allocation")));
+    }
+    Ok(n)
+}
+
+pub fn c05_global_refusals(prop: &'static str) -> Merged {
+    let mut m = Merged::new();
+    let mut cur = CurrentFile::open(prop, 99);
+    let mut i = 0;
+    while entry_point(i).is_some() {
+        m.evaluations += 1;
+        cur.record(&json!({"kind": "global_refusal", "entry": i, "k": Value::Null}));
+        match global_refusal_case(i, None) {
+            Ok(n) => {
+                *m.counters.entry("entry_points_checked_for_foreign_allocations".into()).or_insert(0) += 1;
+                // every allocation the call makes outside the buffer management is refused in turn
+                for k in 0..n {
+                    m.evaluations += 1;
+                    cur.record(&json!({"kind": "global_refusal", "entry": i, "k": k}));
+                    *m.counters.entry("foreign_allocations_refused".into()).or_insert(0) += 1;
+                    if let Err((clause, detail)) = global_refusal_case(i, Some(k)) {
+                        if clause.starts_with(prop) {
+                            m.violation = Some(Violation { case: json!({"kind": "global_refusal", "entry": i, "k": k}), clause, step: 0, detail });
+                            cur.clear();
+                            return m;
+                        }
+                    }
+                }
+            }
+            Err((clause, detail)) => {
+                if clause.starts_with(prop) {
+                    m.violation = Some(Violation { case: json!({"kind": "global_refusal", "entry": i, "k": Value::Null}), clause, step: 0, detail });
+                    break;
+                }
+            }
+        }
+        i += 1;
+    }
+    cur.clear();
+    m
+}
+
 // ------------------------------------------------------------------------------------------ C20 (a), (b)
 
 fn option_roundtrip(s: LeanString, what: &str, text: &str) -> Result<(), (String, String)> {
@@ -697,6 +925,7 @@ pub fn replay_sweep(kind: &str, case: &Value) -> Option<Vec<(usize, String, Stri
             let route = ROUTES.iter().position(|r| Some(*r) == case.get("route").and_then(|v| v.as_str()))?;
             ctor_case(route, case.get("text")?.as_str()?)
         }
+        "global_refusal" => global_refusal_case(u("entry")?, case.get("k").and_then(|v| v.as_u64())).map(|_| ()),
         "short_value" => {
             let ty = case.get("ty")?.as_str()?;
             let v = case.get("v")?;
